@@ -26,10 +26,10 @@ func init() { fw.Register(&c29{Base: Base{Id: "C29", Lvl: "exploration"}}) }
 func (p *c29) Setup(env *fw.Env) error {
 	p.Env = env
 	p.N = env.Pick(30000, 1500000)
-	p.RuleS = "random 1-3 rule grammars (rule i references only later rules, plus parenthesis-guarded self reference) over token classes IDENT INT FLOAT STRING CHAR, keywords and operator literals, with sequence, choice, * + ?, %, ++; generator-side restriction (stated domain): choice alternatives and repetition bodies are non-nullable. Inputs are random derivations of the grammar, half of them perturbed by dropping/replacing/duplicating/inserting one token, rendered with generated spacing (touching and non-touching tokens around ++). Oracle: a ~100-line PEG interpreter over the generator's own tree (ordered choice, greedy repetition without backtracking into it, % as R1 *(R2 R1), ++ requiring both sides non-empty and touching) must agree with Compiler.Match on success/failure, consumed tokens and the result tree (tokens identified by offset). Non-trivial = derivation with >=2 tokens; distinct by grammar+input."
+	p.RuleS = "random 1-3 rule grammars (rule i references only later rules, plus parenthesis-guarded self reference) over token classes IDENT INT FLOAT STRING CHAR, keywords and operator literals, with sequence, choice, * + ?, %, ++; stated domain: repetition bodies are non-nullable; choice alternatives may be nullable, but an execution in which an alternative matched its first token, failed later, and a later alternative is nullable is skipped (README is silent on falling back after a partial match; the implementation commits). Inputs are random derivations of the grammar, half of them perturbed by dropping/replacing/duplicating/inserting one token, rendered with generated spacing (touching and non-touching tokens around ++). Oracle: a ~100-line PEG interpreter over the generator's own tree (ordered choice, greedy repetition without backtracking into it, % as R1 *(R2 R1), ++ requiring both sides non-empty and touching) must agree with Compiler.Match on success/failure, consumed tokens and the result tree (tokens identified by offset). Non-trivial = derivation with >=2 tokens; distinct by grammar+input."
 	p.Assume = []string{"the reference interpreter restates tpl/README.md", "token lists come from the real TPL scanner (checked by C32/C33)", "nullable alternatives / repetition bodies are outside the stated domain (README is silent)"}
 	p.Floor = map[string]int{"#evaluations": p.N / 2, "#nontrivial": 5000, "agree:match": p.N / 10, "agree:fail": p.N / 20,
-		"op:seq": 1000, "op:choice": 1000, "op:*": 1000, "op:+": 1000, "op:?": 1000, "op:%": 1000, "op:++": 500, "adjoin:touching-ok": 100, "adjoin:gap-rejected": 20, "kw-vs-ident-choice": 50}
+		"op:seq": 1000, "op:choice": 1000, "op:*": 1000, "op:+": 1000, "op:?": 1000, "op:%": 1000, "op:++": 500, "adjoin:touching-ok": 100, "adjoin:gap-rejected": 20, "kw-vs-ident-choice": 50, "nullable-alternative": 500}
 	return nil
 }
 
@@ -121,8 +121,9 @@ func (g *c29gen) expr1(ri, depth int) *gen.TG {
 	case k < 5:
 		n := r.Range(2, 3)
 		kids := make([]*gen.TG, n)
+		nullableAlts := r.Chance(1, 3) // nullable alternatives (?X, *X, …) are in the domain, see c29ref.ambiguous
 		for i := range kids {
-			kids[i] = g.expr(ri, depth+1, true)
+			kids[i] = g.expr(ri, depth+1, !nullableAlts)
 		}
 		if r.Chance(1, 3) { // keyword alternative before an IDENT-class alternative
 			kids[0] = gen.TSeq(gen.TLit(fw.Pick(r, []string{`"if"`, `"for"`})), g.expr(ri, depth+1, true))
@@ -311,9 +312,87 @@ func (p *c29) Case(i int) fw.Case {
 // ---- reference interpreter ----
 
 type c29ref struct {
-	rules map[string]*gen.TG
-	toks  []*tpltypes.Token
-	steps int
+	rules     map[string]*gen.TG
+	toks      []*tpltypes.Token
+	steps     int
+	ambiguous bool
+}
+
+func (m *c29ref) nullable(t *gen.TG, depth int) bool {
+	if depth > 8 {
+		return false
+	}
+	switch t.Kind {
+	case "ident":
+		if b, ok := m.rules[t.Name]; ok {
+			return m.nullable(b, depth+1)
+		}
+		return false
+	case "lit":
+		return t.Text == `""`
+	case "seq":
+		for _, k := range t.Kids {
+			if !m.nullable(k, depth) {
+				return false
+			}
+		}
+		return true
+	case "choice":
+		for _, k := range t.Kids {
+			if m.nullable(k, depth) {
+				return true
+			}
+		}
+		return false
+	case "un":
+		return t.Op != "+" || m.nullable(t.Kids[0], depth)
+	case "bin":
+		return t.Op == "%" && m.nullable(t.Kids[0], depth)
+	}
+	return false
+}
+
+// canStart reports whether the token at pos can be the first token of a match of t.
+func (m *c29ref) canStart(t *gen.TG, pos, depth int) bool {
+	if depth > 8 || pos >= len(m.toks) {
+		return false
+	}
+	switch t.Kind {
+	case "ident":
+		if b, ok := m.rules[t.Name]; ok {
+			return m.canStart(b, pos, depth+1)
+		}
+		ok, _, _ := m.match(t, pos)
+		return ok
+	case "lit":
+		ok, _, _ := m.match(t, pos)
+		return ok
+	case "seq":
+		for _, k := range t.Kids {
+			if m.canStart(k, pos, depth) {
+				return true
+			}
+			if !m.nullable(k, depth) {
+				return false
+			}
+		}
+		return false
+	case "choice":
+		for _, k := range t.Kids {
+			if m.canStart(k, pos, depth) {
+				return true
+			}
+		}
+		return false
+	case "un":
+		return m.canStart(t.Kids[0], pos, depth)
+	case "bin":
+		if m.canStart(t.Kids[0], pos, depth) {
+			return true
+		}
+		return t.Op == "%" && m.nullable(t.Kids[0], depth) && m.canStart(t.Kids[1], pos, depth)
+	}
+	return false
 }
 
 var tplSpellRev = func() map[string]tpltoken.Token {
@@ -371,9 +450,19 @@ func (m *c29ref) match(g *gen.TG, pos int) (ok bool, n int, res string) {
 		}
 		return true, n, "[" + strings.Join(parts, " ") + "]"
 	case "choice":
-		for _, k := range g.Kids {
+		for i, k := range g.Kids {
 			if ok1, n1, r1 := m.match(k, pos); ok1 {
 				return true, n1, r1
+			}
+			// README is silent on whether a choice may fall back to a later *nullable* alternative after an
+			// earlier alternative matched its first token and failed later (the implementation commits):
+			// such executions are outside the stated domain.
+			if m.canStart(k, pos, 0) {
+				for _, later := range g.Kids[i+1:] {
+					if m.nullable(later, 0) {
+						m.ambiguous = true
+					}
+				}
 			}
 		}
 		return false, 0, ""
@@ -620,6 +709,13 @@ func (p *c29) Run(c fw.Case, r *fw.Rec) {
 	}
 	ref := &c29ref{rules: rules, toks: toks}
 	wantOK, wantN, wantRes := ref.match(rules[names[0]], 0)
+	if ref.ambiguous {
+		r.Skip("choice-commit-vs-later-nullable-alternative(README-silent)")
+		return
+	}
+	if c29HasNullableAlt(ref, rules) {
+		r.Cover("nullable-alternative")
+	}
 	// implementation
 	var ms tpl.MatchState
 	var result any
@@ -706,4 +802,29 @@ func c29RenderOff(v any, off int) string {
 		return "[" + strings.Join(parts, " ") + "]"
 	}
 	return fmt.Sprintf("<%T>", v)
+}
+
+func c29HasNullableAlt(m *c29ref, rules map[string]*gen.TG) bool {
+	var walk func(t *gen.TG) bool
+	walk = func(t *gen.TG) bool {
+		if t.Kind == "choice" {
+			for _, k := range t.Kids {
+				if m.nullable(k, 0) {
+					return true
+				}
+			}
+		}
+		for _, k := range t.Kids {
+			if walk(k) {
+				return true
+			}
+		}
+		return false
+	}
+	for _, b := range rules {
+		if walk(b) {
+			return true
+		}
+	}
+	return false
 }
